@@ -7,6 +7,8 @@ import Mimium.Proofs.PublishOk
 import Mimium.Proofs.PublishPrune
 import Mimium.Proofs.PublishMono
 import Mimium.Proofs.PublishZ
+import Mimium.Proofs.FlatTreeArmsRun
+import Mimium.Proofs.PublishArms
 /-!
 # C05 — compile-time state layout matches run-time state accesses
 
@@ -388,6 +390,77 @@ theorem C05_eval_instance_is_flat_call (fuel : Nat) (P : Prog) (rt : Rt) (env : 
   rw [he]
   exact ⟨this.2.2.1, this.1, this.2.2.2⟩
 
+/-! ### state inside `if` arms (after the repair of finding F3): no class condition
+
+The compiler publishes the cells of both arms of an `if` (`VisitsA`: condition ++ `then` ++ `else`); one call reaches the
+cells outside arms and those of the arms taken, the others are skipped (`CPay.skip`: no tree operation, no instruction). -/
+
+/-- **the evaluator's state effect is the tree operations of the cells reached — state inside `if` arms included.**
+If `e` visits the cells `seg` in the sense of `VisitsA` (the cells of both arms of every `if` are listed), a successful
+evaluation changes the state of the current function instance exactly as `treeCells seg ps` does, for a payload `ps` shaped
+like `seg` in which the cells of the arms NOT taken are marked `skip` (induction on the fuel over all 18 constructs) -/
+theorem C05_eval_state_effect_is_tree_ops_arms (P : Prog) (rt : Rt) (fuel : Nat) (e : Expr) (seg : List LCell) (env : Env)
+    (σ : Store) (st : SNode) (v : Val) (σ' : Store) (st' : SNode)
+    (hv : VisitsA P e seg) (h : eval fuel P rt env e σ st = .ok (v, σ', st')) :
+    ∃ ps, PayShapeAL seg ps ∧ st' = (treeCells seg ps st).1 :=
+  (eval_visitsA P rt fuel).1 e seg env σ st v σ' st' hv h
+
+/-- the strict discipline is the special case: arms without cells -/
+theorem C05_visits_is_visitsA (P : Prog) (e : Expr) (seg : List LCell) (h : Visits P e seg) : VisitsA P e seg :=
+  visitsA_of_visits P h
+
+/-- **flat = serialised tree, one whole call that skips cells.**  As `C05_flat_eq_tree`, for a payload in which cells may
+be skipped (`NPayOkA`): the state instructions of the call (a) perform `self`-read, the accesses of the cells reached,
+`self`-write — altogether an in-order sub-selection (`List.Sublist`) of the accesses the layout prescribes —, (b) every
+access inside the region, (c) the cursor returns, (d) they run without leaving the storage, leave `pre` / `post` untouched and
+turn `serialize lay st` into `serialize lay st'`, `st'` the tree after the evaluator's operations at the cells reached (the
+words of skipped cells stay what they are), with the same outputs, and (e) `st'` conforms again -/
+theorem C05_flat_eq_tree_arms (lay : LNode) (pay : NPay) (st : SNode) (pre post : List UInt64)
+    (hl : lay.Ok) (hc : Conforms lay st) (hp : NPayOkA lay pay) :
+    accessesOf pre.length (flatNode lay pay) =
+      selfGetAcc lay.self pre.length ++ accessesOf pre.length (flatCells lay.cells pay.cells (selfSize lay.self)) ++
+        selfSetAcc lay.self pre.length ∧
+    (accessesOf pre.length (flatNode lay pay)).Sublist (expectedTrace lay.sk pre.length) ∧
+    (∀ a ∈ accessesOf pre.length (flatNode lay pay),
+      pre.length ≤ a.pos ∧ a.pos + a.size ≤ pre.length + (serialize lay st).length) ∧
+    cursorAfter pre.length (flatNode lay pay) = pre.length ∧
+    vmRun ⟨pre.length, pre ++ serialize lay st ++ post⟩ (flatNode lay pay) =
+      some (⟨pre.length, pre ++ serialize lay (treeNode lay pay st).1 ++ post⟩, (treeNode lay pay st).2) ∧
+    Conforms lay (treeNode lay pay st).1 := by
+  have h := flat_nodeA lay pay st pre post hl hc hp
+  obtain ⟨hacc, hsub, hcur⟩ := acc_nodeA lay pay pre.length hp
+  refine ⟨hacc, hsub, ?_, hcur, h.1, h.2⟩
+  intro a ha
+  rw [C05_serialize_size lay st hc]
+  exact C05_expected_in_bounds lay.sk pre.length (LNode.sk_WF lay) a (hsub.subset ha)
+
+/-- a payload of the strict discipline (no cell skipped) is one of the general one -/
+theorem C05_full_payload_is_arms_payload (lay : LNode) (pay : NPay) (h : NPayOk lay pay) : NPayOkA lay pay :=
+  ⟨h.1, payOkA_of_payOk.payOkAL_of_payOkL lay.cells pay.cells h.2⟩
+
+/-- **one sample of a function instance: reference evaluator = flat machine, state inside `if` arms included.**  As
+`C05_eval_instance_is_flat_call` with `VisitsA` in place of `Visits`: the payload the evaluation computes skips the cells of
+the arms not taken; the flat call performs an in-order sub-selection of `expectedTrace lay.sk`, in bounds, cursor restored,
+and leaves the flat image of the next tree, which conforms again -/
+theorem C05_eval_instance_is_flat_call_arms (fuel : Nat) (P : Prog) (rt : Rt) (env : Env) (σ : Store) (lay : LNode)
+    (body : Expr) (st : SNode) (v : Val) (σ' : Store) (st1 : SNode)
+    (hl : lay.Ok) (hc : Conforms lay st) (hvis : VisitsA P body lay.cells)
+    (h : eval fuel P rt env body σ (initSelf lay.self st) = .ok (v, σ', st1)) :
+    ∃ ps, PayShapeAL lay.cells ps ∧ finSelf lay.self st1 v = (treeNode lay ⟨v, ps⟩ st).1 ∧
+      (NPayOkA lay ⟨v, ps⟩ → ∀ pre post : List UInt64,
+        vmRun ⟨pre.length, pre ++ serialize lay st ++ post⟩ (flatNode lay ⟨v, ps⟩) =
+          some (⟨pre.length, pre ++ serialize lay (finSelf lay.self st1 v) ++ post⟩, (treeNode lay ⟨v, ps⟩ st).2) ∧
+        (accessesOf pre.length (flatNode lay ⟨v, ps⟩)).Sublist (expectedTrace lay.sk pre.length) ∧
+        (∀ a ∈ accessesOf pre.length (flatNode lay ⟨v, ps⟩),
+          pre.length ≤ a.pos ∧ a.pos + a.size ≤ pre.length + (serialize lay st).length) ∧
+        cursorAfter pre.length (flatNode lay ⟨v, ps⟩) = pre.length ∧
+        Conforms lay (finSelf lay.self st1 v)) := by
+  obtain ⟨ps, hp, he⟩ := treeNode_of_effA lay st v st1 ((eval_visitsA P rt fuel).1 body _ env σ _ v σ' st1 hvis h)
+  refine ⟨ps, hp, he, fun hpay pre post => ?_⟩
+  have := C05_flat_eq_tree_arms lay ⟨v, ps⟩ st pre post hl hc hpay
+  rw [he]
+  exact ⟨this.2.2.2.2.1, this.2.1, this.2.2.1, this.2.2.2.1, this.2.2.2.2.2⟩
+
 /-! non-vacuity of `Visits`: the body `self + (mem(x) + f(delay(3, x, 1)))` with `f(y) = mem(y)` visits
 `[mem 0, delay 1 3, child 2 [mem 0]]` -/
 example :
@@ -632,6 +705,61 @@ theorem C05_published_instance_is_flat_call_stateless_arms (fuel n : Nat) (P : P
   obtain ⟨hacc, _, hrun, hconf⟩ := C05_flat_eq_tree lay ⟨v, ps⟩ st pre post hl hc hpay
   refine ⟨by rw [hser]; exact hrun, by rw [htr]; exact hacc, C05_expected_in_bounds (publishedSk lay) pre.length hwf,
     by rw [hsz]; exact C05_serialize_size lay st hc, conforms_same lay _ _ hsame'.symm hconf⟩
+
+/-! ### no class condition (after the repair of finding F3) -/
+
+/-- **the published layout is reached in order, for EVERY program**: whatever `pubE` publishes for an expression — the
+cells of the condition, of the `then` arm and of the `else` arm of every `if` — is `VisitsA`-visited by it -/
+theorem C05_publish_visits_arms (n : Nat) (P : Prog) (e : Expr) (seg : List LCell) (hpub : publishEN n P e = some seg) :
+    VisitsA P e seg := publishEN_visitsA n P e seg hpub
+
+/-- `C05_eval_state_effect_is_tree_ops_arms` for the cells published for ANY expression of ANY program -/
+theorem C05_published_state_effect_is_tree_ops_arms (n : Nat) (P : Prog) (rt : Rt) (fuel : Nat) (e : Expr)
+    (seg : List LCell) (env : Env) (σ : Store) (st : SNode) (v : Val) (σ' : Store) (st' : SNode)
+    (hpub : publishEN n P e = some seg) (h : eval fuel P rt env e σ st = .ok (v, σ', st')) :
+    ∃ ps, PayShapeAL seg ps ∧ st' = (treeCells seg ps st).1 :=
+  C05_eval_state_effect_is_tree_ops_arms P rt fuel e seg env σ st v σ' st' (C05_publish_visits_arms n P e seg hpub) h
+
+/-- **one sample of any function instance: reference evaluator = flat machine at the published offsets — no class
+condition** (`C05_published_instance_is_flat_call` without `noStateInArmsN`: stateful constructs inside `if` arms allowed).
+For every program `P`, function `d`, call depth `n` with `publishFnN n P d = some lay` and unique sites: one sample of an
+instance of `d` in the reference semantics and the state instructions of the call — every cell bracketed by push / pop of
+its published offset, the cells of the arms not taken skipped —, run on the flat image `serialize lay st` anywhere in a
+larger storage, commute with `serialize` (tree equality, as in the narrow class); the accesses are an in-order
+sub-selection of those the PUBLISHED skeleton prescribes at that base (`self` first and last), every one inside the region
+of `total_size` words, the cursor returns, the rest of the storage is untouched, and the next tree conforms again -/
+theorem C05_published_instance_is_flat_call_arms (fuel n : Nat) (P : Prog) (d : FnDecl) (lay : LNode)
+    (rt : Rt) (env : Env) (σ : Store) (st : SNode) (v : Val) (σ' : Store) (st1 : SNode)
+    (hpub : publishFnN n P d = some lay) (hs : SitesUnique P) (hd : SitesOk d.body)
+    (hc : Conforms lay st)
+    (h : eval fuel P rt env d.body σ (initSelf d.selfShape st) = .ok (v, σ', st1)) :
+    ∃ ps, PayShapeAL lay.cells ps ∧ finSelf d.selfShape st1 v = (treeNode lay ⟨v, ps⟩ st).1 ∧
+      (NPayOkA lay ⟨v, ps⟩ → ∀ pre post : List UInt64,
+        vmRun ⟨pre.length, pre ++ serialize lay st ++ post⟩ (flatNode lay ⟨v, ps⟩) =
+          some (⟨pre.length, pre ++ serialize lay (finSelf d.selfShape st1 v) ++ post⟩, (treeNode lay ⟨v, ps⟩ st).2) ∧
+        accessesOf pre.length (flatNode lay ⟨v, ps⟩) =
+          selfGetAcc lay.self pre.length ++ accessesOf pre.length (flatCells lay.cells ps (selfSize lay.self)) ++
+            selfSetAcc lay.self pre.length ∧
+        (accessesOf pre.length (flatNode lay ⟨v, ps⟩)).Sublist (expectedTrace (publishedSk lay) pre.length) ∧
+        (∀ a ∈ accessesOf pre.length (flatNode lay ⟨v, ps⟩),
+          pre.length ≤ a.pos ∧ a.pos + a.size ≤ pre.length + (publishedSk lay).size) ∧
+        cursorAfter pre.length (flatNode lay ⟨v, ps⟩) = pre.length ∧
+        (serialize lay st).length = (publishedSk lay).size ∧
+        Conforms lay (finSelf d.selfShape st1 v)) := by
+  obtain ⟨hself, hcells⟩ := publishFnN_inv hpub
+  have hvis := C05_publish_visits_arms n P d.body lay.cells hcells
+  have hl := C05_publish_ok n P d lay hs hd hpub
+  rw [← hself] at h ⊢
+  obtain ⟨ps, hp, he⟩ := treeNode_of_effA lay st v st1 ((eval_visitsA P rt fuel).1 d.body _ env σ _ v σ' st1 hvis h)
+  obtain ⟨hwf, hsz, htr⟩ := publishedSk_spec lay
+  refine ⟨ps, hp, he, fun hpay pre post => ?_⟩
+  obtain ⟨hacc, hsub, hin, hcur, hrun, hconf⟩ := C05_flat_eq_tree_arms lay ⟨v, ps⟩ st pre post hl hc hpay
+  have hlen := C05_serialize_size lay st hc
+  refine ⟨by rw [he]; exact hrun, hacc, by rw [htr]; exact hsub, ?_, hcur, by rw [hsz]; exact hlen, by rw [he]; exact hconf⟩
+  intro a ha
+  have := hin a ha
+  rw [hlen, ← hsz] at this
+  exact this
 
 /-- `publishFn` / `publishE` / `noStateInArms` are the instances at depth `|P.fns|` -/
 theorem C05_publishFn_is_depth_instance (P : Prog) (d : FnDecl) (e : Expr) :
